@@ -143,12 +143,16 @@ class Ctx:
             claim = claim.e
         if isinstance(claim, bool):
             return claim
-        if self.smt_dump is not None:
+        dump = None
+        if self.smt_dump is not None and len(self.smt_dump) < 64:
             s2 = z3.Solver()
             s2.add(self.s.assertions())
             s2.add(z3.Not(claim))
-            self.smt_dump.append((label, s2.to_smt2()))
+            dump = [label, s2.to_smt2(), None]
+            self.smt_dump.append(dump)
         r = self.check(z3.Not(claim))
+        if dump is not None:
+            dump[2] = str(r)
         if r == z3.unknown:
             raise Inconclusive("solver unknown on claim %s" % label)
         if r == z3.sat:
